@@ -273,7 +273,30 @@ def call(ex, st, ins, nm, args, rty, aty):
         return out
     m = re.match(r'avx512\.mask\.scalef\.p(s|d)\.(\d+)$', n_)
     if m:
-        raise Unsupported('scalef (modelled in fpspecial)')
+        # VSCALEFPS/PD (Intel SDM): DEST = a * 2^floor(b), one rounding (MXCSR.RC / embedded rounding = current direction);
+        # special cases of table 5-31: NaN operands propagate; b=+inf: a=0 -> QNaN indefinite, else a*inf;  b=-inf: a=inf -> QNaN, else a*0.
+        a, b, src, k, rc = args[:5]
+        if rc != 4: raise Unsupported('scalef with embedded rounding')
+        w = rty.el.n
+        S = FSORT[w]; W = z3.Float64() if w == 32 else z3.FPSort(15, 64)
+        lim = 400 if w == 32 else 3000
+        out = []
+        for x, y in zip(a, b):
+            fx, fy = x.fp(), y.fp()
+            fl = z3.fpRoundToIntegral(z3.RTN(), fy)
+            big = z3.fpGT(fl, z3.FPVal(float(lim), S)); small = z3.fpLT(fl, z3.FPVal(float(-lim), S))
+            e = z3.If(big, z3.BitVecVal(lim, 32), z3.If(small, z3.BitVecVal(-lim & 0xffffffff, 32), z3.fpToSBV(z3.RTN(), fy, z3.BitVecSort(32))))
+            if w == 32: p2 = z3.fpBVToFP((z3.SignExt(32, e) + 1023) << 52, z3.Float64())
+            else: p2 = z3.fpFP(z3.BitVecVal(0, 1), z3.Extract(14, 0, e + 16383), z3.BitVecVal(0, 63))
+            prod = z3.fpMul(RNE, z3.fpFPToFP(RNE, fx, W), p2)            # exact in the wide sort
+            r = z3.fpFPToFP(RNE, prod, S)                                # the single rounding
+            nan = z3.fpNaN(S)
+            pinf = z3.And(z3.fpIsInf(fy), z3.fpIsPositive(fy)); ninf = z3.And(z3.fpIsInf(fy), z3.fpIsNegative(fy))
+            r = z3.If(z3.Or(z3.fpIsNaN(fx), z3.fpIsNaN(fy)), nan,
+                      z3.If(pinf, z3.If(z3.fpIsZero(fx), nan, z3.fpMul(RNE, fx, z3.fpPlusInfinity(S))),
+                            z3.If(ninf, z3.If(z3.fpIsInf(fx), nan, z3.fpMul(RNE, fx, z3.fpPlusZero(S))), r)))
+            out.append(F(w, fp=r))
+        return apply_mask(ex, rty, out, src, k)
     m = re.match(r'avx512\.(vfmadd|vfmaddsub)\.p(s|d)\.(\d+)$', n_)
     if m and m.group(1) == 'vfmadd':
         if args[3] != 4: raise Unsupported('embedded rounding')
